@@ -166,24 +166,59 @@ P.fn(FC + 'Context.pop', name='Context.pop', params=dict(self='Context', obj='Ma
                          'all(not HALT(%s, obj) and not POPSTOP(%s, obj) for i in range(%s, %s))' % (OBJ_AT, OBJ_AT, N, O)],
                     decreases=N, modifies=[Mod('list:ContextItem', 'r is self.contexts')])})
 
+
+# if no frame above the bottom one defines k up to index i, lookup from frame i answers from the bottom frame (induction on i)
+P.lemma('GLOBAL_VISIBLE', dict(self='Context', i='int', k='str'),
+        requires=STACK + ['0 <= i and i < len(self.contexts)', 'all(k not in self.contexts[j] for j in range(1, i + 1))'],
+        ensures=['HAS(self.contexts[i], k) == (k in self.contexts[0])',
+                 'implies(k in self.contexts[0], LOOKUP(self.contexts[i], k) is self.contexts[0][k])'],
+        decreases='i', body="""
+if i > 0:
+    GLOBAL_VISIBLE(self, i - 1, k)
+""")
+P.lemma('NOWHERE', dict(self='Context', i='int', k='str'),
+        requires=STACK + ['0 <= i and i < len(self.contexts)', 'not HAS(self.contexts[i], k)'],
+        ensures=['all(k not in self.contexts[j] for j in range(0, i + 1))'],
+        decreases='i', body="""
+if i > 0:
+    NOWHERE(self, i - 1, k)
+""")
+
 # ---------------------------------------------------------------------------------------------- definitions: which frame is written
 P.uninterp('ismacro', ['Any'], 'bool')
 P.uninterp('macroName', ['Any'], 'str')
 TOPI = 'len(self.contexts) - 1'
-for nm, real, idx in (('Context.addGlobal', 'Context.addGlobal', '0'), ('Context.__setitem__', 'Context.addGlobal', '0'),
-                      ('Context.addLocal', 'Context.addLocal', TOPI)):
-    other = 'self.contexts[%s]' % idx
-    P.fn(FC + real, name=nm, params=dict(self='Context', key='str', value='Any'), returns='none',
+MN = 'macroName(value)'
+for nm in ('Context.addGlobal', 'Context.__setitem__'):
+    P.fn(FC + 'Context.addGlobal', name=nm, params=dict(self='Context', key='str', value='Any'), returns='none',
          requires=WF + [PO],
          raises={'ValueError': 'iff:not ismacro(value)'},
-         # the definition lands in exactly one frame (global: the bottom one, local: the innermost one), under the macro's own name;
-         # every other name of that frame and every other frame is untouched (frame condition)
-         ensures=WF + [PO, 'macroName(value) in %s' % other, '%s[macroName(value)] is value' % other,
-                       'all(implies(k != macroName(value), (k in %s) == old(k in %s) and %s[k] is old(%s[k])) for k in Strs())' % (other, other, other, other)],
-         exc_ensures={'ValueError': ['all((k in %s) == old(k in %s) for k in Strs())' % (other, other)]},
-         modifies=[Mod('dict:str,Any', 'r is %s' % other)],
+         # a global definition lands in the bottom frame under the macro's own name and no open frame keeps a local definition of
+         # that name (so it is the live definition at every level); every other name of every frame is untouched
+         ensures=WF + [PO, '%s in self.contexts[0]' % MN, 'self.contexts[0][%s] is value' % MN,
+                       'all(%s not in self.contexts[i] for i in range(1, len(self.contexts)))' % MN,
+                       'all(all(implies(k != %s, (k in self.contexts[i]) == old(k in self.contexts[i]) and self.contexts[i][k] is old(self.contexts[i][k])) '
+                       'for k in Strs()) for i in range(len(self.contexts)))' % MN,
+                       'HAS(self.top, %s)' % MN, 'LOOKUP(self.top, %s) is value' % MN],
+         exc_ensures={'ValueError': ['all((k in self.contexts[0]) == old(k in self.contexts[0]) for k in Strs())']},
+         modifies=[Mod('dict:str,Any', 'any(r is self.contexts[i] for i in range(len(self.contexts)))')],
+         at_exit=['GLOBAL_VISIBLE(self, len(self.contexts) - 1, %s)' % MN],
+         loops={0: Loop(index='j', seq='fs', inv=[PO] + WF + [
+             'len(fs) == len(self.contexts) - 1', 'all(fs[i] is self.contexts[i + 1] for i in range(len(fs)))',
+             'all(name not in self.contexts[i] for i in range(1, j + 1))',
+             'all(all(implies(k != name or i == 0 or i > j, (k in self.contexts[i]) == old(k in self.contexts[i]) and self.contexts[i][k] is old(self.contexts[i][k])) '
+             'for k in Strs()) for i in range(len(self.contexts)))'],
+             modifies=[Mod('dict:str,Any', 'any(r is self.contexts[i] for i in range(1, len(self.contexts)))')])},
          notes='value is a macro class / instance; the str -> Command conversion branch is outside the typed contract')
-
+P.fn(FC + 'Context.addLocal', name='Context.addLocal', params=dict(self='Context', key='str', value='Any'), returns='none',
+     requires=WF + [PO],
+     raises={'ValueError': 'iff:not ismacro(value)'},
+     # a local definition lands in the innermost frame only (frame condition: no other frame is written)
+     ensures=WF + [PO, '%s in self.top' % MN, 'self.top[%s] is value' % MN,
+                   'all(implies(k != %s, (k in self.top) == old(k in self.top) and self.top[k] is old(self.top[k])) for k in Strs())' % MN,
+                   'HAS(self.top, %s)' % MN, 'LOOKUP(self.top, %s) is value' % MN],
+     exc_ensures={'ValueError': ['all((k in self.top) == old(k in self.top) for k in Strs())']},
+     modifies=[Mod('dict:str,Any', 'r is self.contexts[%s]' % TOPI)])
 P.fn('new_unrecognized', params=dict(name='str', bases='opaque', ns='opaque'), returns='Any', trusted=True,
      requires=[PO], ensures=[PO, 'fresh(result)', 'ismacro(result)', 'macroName(result) == name'], allocates=True, modifies=[],
      notes='type(key, (UnrecognizedMacro,), {}): a new macro class whose macro name is the key')
@@ -197,8 +232,11 @@ P.fn(FC + 'Context.__getitem__', name='Context.__getitem__', params=dict(self='C
      ensures=WF + [PO, 'implies(old(HAS(self.top, key)), result is old(LOOKUP(self.top, key)))',
                    'implies(not old(HAS(self.top, key)), fresh(result) and key in self.contexts[0] and self.contexts[0][key] is result)',
                    'all(implies(k != key or old(HAS(self.top, key)), (k in self.contexts[0]) == old(k in self.contexts[0]) '
-                   'and self.contexts[0][k] is old(self.contexts[0][k])) for k in Strs())'],
-     allocates=True, modifies=[Mod('dict:str,Any', 'r is self.contexts[0]')], calls={'type': 'new_unrecognized'},
+                   'and self.contexts[0][k] is old(self.contexts[0][k])) for k in Strs())',
+                   'all(all((k in self.contexts[i]) == old(k in self.contexts[i]) and implies(k in self.contexts[i], self.contexts[i][k] is old(self.contexts[i][k])) '
+                   'for k in Strs()) for i in range(1, len(self.contexts)))'],
+     allocates=True, modifies=[Mod('dict:str,Any', 'any(r is self.contexts[i] for i in range(len(self.contexts)))')], calls={'type': 'new_unrecognized'},
+     at_exit=['implies(not old(HAS(self.top, key)), old(NOWHERE(self, len(self.contexts) - 1, key)))'],
      fields={'warnOnUnrecognized': 'bool'})
 
 P.const('Token.CC_ESCAPE', 0)
@@ -209,7 +247,7 @@ P.fn(FC + 'Context.let', name='Context.let', params=dict(self='Context', dest='T
               # \let\a=\b : the innermost frame binds a to the meaning b has *now* (copied, not linked)
               'implies(source.catcode == 0 and old(HAS(self.top, %s)), %s in self.top and self.top[%s] is old(LOOKUP(self.top, %s)))' % (SN, DN, DN, SN),
               'implies(source.catcode == 0, all(implies(k != %s and not (self.top is self.contexts[0] and k == %s), '
-              '(k in self.top) == old(k in self.top) and self.top[k] is old(self.top[k])) for k in Strs()))' % (DN, SN),
+              '(k in self.top) == old(k in self.top) and implies(k in self.top, self.top[k] is old(self.top[k]))) for k in Strs()))' % (DN, SN),
               # \let\a=<character token>: recorded in the innermost frame's lets only
               'implies(source.catcode != 0, %s in self.top.lets and self.top.lets[%s] is source)' % (DN, DN),
               'implies(source.catcode != 0, all(implies(k != %s, (k in self.top.lets) == old(k in self.top.lets) and '
@@ -219,12 +257,12 @@ P.fn(FC + 'Context.let', name='Context.let', params=dict(self='Context', dest='T
               'all(implies(source.catcode == 0 or i < len(self.contexts) - 1, all((k in self.contexts[i].lets) == old(k in self.contexts[i].lets) and '
               'self.contexts[i].lets[k] is old(self.contexts[i].lets[k]) for k in Strs())) for i in range(len(self.contexts)))',
               # no frame between the global and the innermost one is written
-              'all(all((k in self.contexts[i]) == old(k in self.contexts[i]) and self.contexts[i][k] is old(self.contexts[i][k]) for k in Strs()) '
-              'for i in range(1, len(self.contexts) - 1))'],
+              'all(all((k in self.contexts[i]) == old(k in self.contexts[i]) and implies(k in self.contexts[i], self.contexts[i][k] is old(self.contexts[i][k])) '
+              'for k in Strs()) for i in range(1, len(self.contexts) - 1))'],
      allocates=True,
      at_exit=['all(self.contexts[i].lets is not self.top and self.contexts[i].lets is not self.contexts[0] and not isnone(self.contexts[i].lets) '
               'for i in range(len(self.contexts)))'],
-     modifies=[Mod('dict:str,Any', 'r is self.top or r is self.contexts[0]'), Mod('dict:str,Token', 'r is self.top.lets')])
+     modifies=[Mod('dict:str,Any', 'any(r is self.contexts[i] for i in range(len(self.contexts)))'), Mod('dict:str,Token', 'r is self.top.lets')])
 
 # ---------------------------------------------------------------------------------------------- category codes: copy-on-write per frame
 P.const('VERBATIM_CATEGORIES', None)
@@ -283,14 +321,19 @@ ctx.pop(None)
 """)
 P.client('global_survives_group', dict(ctx='Context', name='str', value='Any'),
          requires=CWF + ['ismacro(value)'],
-         # a global definition made inside a group is still there after the group closes, in the bottom frame
+         # a global definition made inside a group is the live definition after the group closes (and at every level)
          ensures=CWF + ['len(ctx.contexts) == old(len(ctx.contexts))', 'macroName(value) in ctx.contexts[0]',
-                        'ctx.contexts[0][macroName(value)] is value'] + frames_same('len(ctx.contexts)', '1'),
+                        'ctx.contexts[0][macroName(value)] is value', 'HAS(ctx.top, macroName(value))',
+                        'LOOKUP(ctx.top, macroName(value)) is value',
+                        'all(all(implies(k != macroName(value), (k in ctx.contexts[i]) == old(k in ctx.contexts[i]) and '
+                        'ctx.contexts[i][k] is old(ctx.contexts[i][k])) for k in Strs()) for i in range(len(ctx.contexts)))'],
          body="""
 ctx.push(None)
 ctx.addGlobal(name, value)
 ctx.pop(None)
+GLOBAL_VISIBLE(ctx, len(ctx.contexts) - 1, macroName(value))
 """)
+
 
 # ---------------------------------------------------------------------------------------------- who pushes and pops (call protocol)
 FI = 'plasTeX/__init__.py::'
